@@ -326,6 +326,7 @@ fn exhaustive(rec: &mut Rec, depth: usize, a: u8, b: u8, u: u8, extra_registered
   go(rec, &w0, depth, &probe, &mut leaves, Some(first));
   rec.evn("exhaustive_sequences", leaves);
   rec.exhaustive = true;
+  rec.evals += 1; // the configuration itself (its sequences are counted one by one below)
   rec.case(&("exhaustive", depth, a, b, u, first));
 }
 
